@@ -288,6 +288,10 @@ package pegnet
 //@ spec func backfilled(oldPres set[int], metaPresent bool, S int, x int) bool =
 //@     metaPresent && (exists k int :: 0 <= k && k < len(Hardforks) && Hardforks[k].ActivationHeight == x && S >= x)
 //@
+//@ // the start-up verdict (after the back-fill): refuse iff a fork at or below the top height has a block at or above it synced
+//@ // with too old a version, or a newer build synced something
+//@ spec func mustRefuse(pres set[int], ver map[int]int) bool = (exists k int, top int :: 0 <= k && k < len(Hardforks) && isMaxH(pres, top) && Hardforks[k].ActivationHeight <= top && tooOld(pres, ver, Hardforks[k].ActivationHeight, Hardforks[k].MinimumVersion)) || newerThan(pres, ver, PegnetdSyncVersion)
+//@
 //@ func (Pegnet).CheckHardForks
 //@   props C19
 //@   nullable tx
@@ -299,7 +303,7 @@ package pegnet
 //@   ensures @backfill_versions envHealthy ==> (forall x int :: LsyncPresent[x] ==> (old(LsyncPresent)[x] ==> LsyncVer[x] == old(LsyncVer)[x]) && (!old(LsyncPresent)[x] ==> LsyncVer[x] == 0 - 1))
 //@   ensures @no_backfill_otherwise envHealthy && !(old(LmetaPresent) && (exists m int :: isMinH(old(LsyncPresent), m) && old(LmetaSynced) > m)) ==> LsyncPresent == old(LsyncPresent) && LsyncVer == old(LsyncVer)
 //@   // refusal: iff (after the back-fill) a fork at or below the top height has a block at or above it synced with too old a version, or a newer build synced something
-//@   ensures @refuse_iff envHealthy ==> ((err != nil) <==> ((exists k int, top int :: 0 <= k && k < len(Hardforks) && isMaxH(LsyncPresent, top) && Hardforks[k].ActivationHeight <= top && tooOld(LsyncPresent, LsyncVer, Hardforks[k].ActivationHeight, Hardforks[k].MinimumVersion)) || newerThan(LsyncPresent, LsyncVer, PegnetdSyncVersion)))
+//@   ensures @refuse_iff envHealthy ==> ((err != nil) <==> mustRefuse(LsyncPresent, LsyncVer))
 //@   // a database written by a build that predates version tracking (no version rows at all) and that has synced a fork block is refused
 //@   ensures @legacy_refused{C19} envHealthy && old(LmetaPresent) && noRows(old(LsyncPresent)) && (exists k int :: 0 <= k && k < len(Hardforks) && Hardforks[k].ActivationHeight <= old(LmetaSynced) && Hardforks[k].MinimumVersion > 0 - 1 && old(LmetaSynced) > 0) ==> err != nil
 //@   loop 1 invariant @range 0 <= iter && iter <= len(Hardforks) && bs != nil && bs.Synced == LmetaSynced && LmetaPresent
@@ -350,6 +354,17 @@ package pegnet
 //@ func (*Pegnet).SelectTransactionHistoryActionsByHeight
 //@   trusted
 //@   pure
+//@
+//@ // opening the database (trusted): New allocates the handle object, Init opens the file and creates missing tables; neither
+//@ // touches ledger content
+//@ func New
+//@   trusted
+//@   pure
+//@   ensures result != nil && fresh(result)
+//@ func (*Pegnet).Init
+//@   trusted
+//@   modifies p.DB
+//@   ensures result == nil ==> p.DB != nil
 //@
 //@ func (*Pegnet).InsertFCTBurn
 //@   trusted
